@@ -257,7 +257,7 @@ def monitorC28 (fs : List (String × String)) (ops : List String) (out : String)
               | some m, some la, some r =>
                 if m == showNodes (rsReference initial entries la).nodes then none
                 else if r > 0 then some "restart-forgets-applied-config"
-                else some "config-entry-skipped-after-failed-one"
+                else some "membership-not-fold-of-applied-config"
               | _, _, _ => some "unparsable-output"
             match verdict with
             | some v => some v
